@@ -484,7 +484,8 @@ def run_routing(ctx: Ctx, recipe: Dict[str, Any], cid: str) -> Case:
                 c0, act = req.posts[0]
                 if val != expected_value(m, act, c0) or any(a != act for _, a in req.posts):
                     vok = "BAD"
-            lines.append(f"call {m} sent={','.join(map(str, sent)) or '~'} na={'T' if na else 'F'} rtype={type_token(val)} val={vok}")
+            lines.append(f"call {m} sent={','.join(map(str, sent)) or '~'} na={'T' if na else 'F'} rtype={type_token(val)} val={vok}"
+                         f" acts={','.join(a for _, a in req.posts) or '~'}")
             tags.add("call:na" if na else "call:sent")
         # the caller's own alias list (`services=[...]`) on the methods that accept one
         import inspect
@@ -526,7 +527,11 @@ def val_token(v: Any) -> str:
         return "bool"
     if isinstance(v, int):
         return f"int:{v}"
-    return "int:0"  # "a value" (status info tuple / address string)
+    # "a value" (status info tuple / address string): it must be the one the gateway served
+    from async_upnp_client.profiles.igd import StatusInfo
+    if v == StatusInfo("Connected", "ERROR_NONE", 12) or v == "198.51.100.4":
+        return "int:0"
+    return f"BAD:{type(v).__name__}"
 
 
 def rate_token(x: Any) -> str:
